@@ -28,6 +28,7 @@ import (
 	"go/ast"
 	"go/token"
 	"os"
+	"regexp"
 	"sort"
 	"strconv"
 	"strings"
@@ -288,6 +289,11 @@ func (u *universe) kind(pkg string, e ast.Expr) string {
 		case "foreign", "ptrPlain":
 			return k
 		}
+		if unnamedType(t.Elt) {
+			// emitSlice writes "[]" + package + elemType.Name() + "{": a pointer, slice, map or func
+			// type has no name, the text `[]{…}` is not Go and format.Source refuses the file
+			return "unnamedElems"
+		}
 		return "nodes"
 	case *ast.MapType:
 		if id, ok := t.Key.(*ast.Ident); !ok || id.Name != "string" {
@@ -297,6 +303,9 @@ func (u *universe) kind(pkg string, e ast.Expr) string {
 		case "foreign", "ptrPlain":
 			return k
 		}
+		if unnamedType(t.Value) {
+			return "unnamedElems" // emitMap writes "map[string]" + package + valType.Name() + "{"
+		}
 		return "nodeMap"
 	case *ast.InterfaceType:
 		return "dynamic"
@@ -304,6 +313,18 @@ func (u *universe) kind(pkg string, e ast.Expr) string {
 		return "foreign"
 	}
 	return "foreign" // func, chan, …
+}
+
+// unnamedType: a type expression whose reflect.Type has an empty Name() (the element type name that
+// emitSlice / emitMap print).
+func unnamedType(e ast.Expr) bool {
+	switch t := e.(type) {
+	case *ast.StarExpr, *ast.ArrayType, *ast.MapType, *ast.FuncType, *ast.ChanType, *ast.InterfaceType, *ast.StructType:
+		return true
+	case *ast.Ident:
+		return t.Name == "any" // alias of interface{}: reflect's Name() is empty
+	}
+	return false
 }
 
 // fieldOf finds field name in struct q, looking through embedded structs (promotion).
@@ -752,6 +773,123 @@ func (a *analyzer) closure(fn string) reads {
 	}
 	rec(fn)
 	return total
+}
+
+// ---------------------------------------------------------------- what a handler writes
+//
+// A special handler may write ANOTHER node than the one the parser built: a constructor that
+// re-derives the node (NewCallTodo), a fused fast-path node, an algebraic rewrite (`$v < N` as
+// `$v <= N-1`). Such a substitution is semantics-preserving only if it is on the whole operand
+// domain. Per handler:
+//   heads   the node/data constructors and literal types named in the format strings of the
+//           handler's OWN body, in source order (`node.NewCallTodo`, `node.CallExpression`, …;
+//           node.NewNode / node.NewTokenFrom apart): what the generated program calls;
+//   builds  node/data constructors CALLED and node/data composite literals BUILT at generation
+//           time by the handler and the package-local functions it reaches: AST nodes the parser
+//           did not build (`g.Emit(node.NewBinaryLe(…))`).
+// The property file keeps the expected table; a new handler, a handler that writes another head
+// or starts building nodes breaks the obligation by name.
+
+var reHead = regexp.MustCompile(`(\[\]|\]|\*)?&?\b(node|data)\.([A-Za-z_][A-Za-z0-9_]*)\s*[({]`)
+
+// ownHeads: the heads named in the format strings of fn's own body; a handler that only delegates
+// (`return g.emitClassAnnotation(…)`) has the heads of the functions it calls.
+func (a *analyzer) ownHeads(fn string, depth int) []string {
+	var heads []string
+	// position helpers and interface names (result types of `func() data.GetValue {`) are not heads
+	seenH := map[string]bool{"node.NewNode": true, "node.NewTokenFrom": true, "data.GetValue": true, "data.Method": true, "data.Variable": true, "data.Types": true}
+	fd := a.funcs[fn]
+	if fd == nil || fd.Body == nil {
+		return nil
+	}
+	ast.Inspect(fd.Body, func(n ast.Node) bool {
+		bl, ok := n.(*ast.BasicLit)
+		if !ok || bl.Kind != token.STRING {
+			return true
+		}
+		txt, err := strconv.Unquote(bl.Value)
+		if err != nil {
+			return true
+		}
+		for _, m := range reHead.FindAllStringSubmatch(txt, -1) {
+			if m[1] != "" {
+				continue // a slice / map / pointer TYPE (`[]data.GetValue{`), not a value
+			}
+			h := m[2] + "." + m[3]
+			if !seenH[h] {
+				seenH[h] = true
+				heads = append(heads, h)
+			}
+		}
+		return true
+	})
+	if len(heads) == 0 && depth < 3 {
+		_, cs := a.own(fn)
+		done := map[string]bool{}
+		for _, c := range cs {
+			if done[c] {
+				continue
+			}
+			done[c] = true
+			for _, h := range a.ownHeads(c, depth+1) {
+				if !seenH[h] {
+					seenH[h] = true
+					heads = append(heads, h)
+				}
+			}
+		}
+	}
+	return heads
+}
+
+func (a *analyzer) handlerOut(fn string) (heads, builds []string) {
+	heads = a.ownHeads(fn, 0)
+	seenF := map[string]bool{}
+	seenB := map[string]bool{}
+	var rec func(name string)
+	rec = func(name string) {
+		if seenF[name] {
+			return
+		}
+		seenF[name] = true
+		fd := a.funcs[name]
+		if fd == nil || fd.Body == nil {
+			return
+		}
+		pkgSel := func(e ast.Expr) string {
+			se, ok := e.(*ast.SelectorExpr)
+			if !ok {
+				return ""
+			}
+			id, ok := se.X.(*ast.Ident)
+			if !ok || (id.Name != "node" && id.Name != "data") {
+				return ""
+			}
+			return id.Name + "." + se.Sel.Name
+		}
+		ast.Inspect(fd.Body, func(n ast.Node) bool {
+			switch x := n.(type) {
+			case *ast.CallExpr:
+				if q := pkgSel(x.Fun); q != "" && strings.HasPrefix(q[strings.IndexByte(q, '.')+1:], "New") && !seenB[q] {
+					seenB[q] = true
+					builds = append(builds, q)
+				}
+			case *ast.CompositeLit:
+				if q := pkgSel(x.Type); q != "" && !seenB[q] {
+					seenB[q] = true
+					builds = append(builds, q)
+				}
+			}
+			return true
+		})
+		_, cs := a.own(name)
+		for _, c := range cs {
+			rec(c)
+		}
+	}
+	rec(fn)
+	sort.Strings(builds)
+	return
 }
 
 // ---------------------------------------------------------------- order analysis
@@ -1387,7 +1525,7 @@ func main() {
 	sort.Strings(names)
 
 	var sb strings.Builder
-	sb.WriteString("import Model.Emit\nimport Model.EmitOrder\n/-! Struct tables of node/*.go and data/*.go, the handler registries of cmd/compile and the\nfields each handler reads; call sequences of VM.RunCompiledFile / VM.LoadAndRun. -/\nnamespace Generated.C16CompileNodes\nopen Model.Emit\n\n")
+	sb.WriteString("import Model.Emit\nimport Model.EmitOrder\nimport Model.EmitFuse\n/-! Struct tables of node/*.go and data/*.go, the handler registries of cmd/compile and the\nfields each handler reads; call sequences of VM.RunCompiledFile / VM.LoadAndRun. -/\nnamespace Generated.C16CompileNodes\nopen Model.Emit\n\n")
 	sb.WriteString("/-- structs that can occur in an AST handed to `Generator.Emit` -/\ndef structs : List StructDesc := [\n")
 	for i, q := range names {
 		st := u.structs[q]
@@ -1459,6 +1597,16 @@ func main() {
 	writeHandlers("aux", "structs without a registry entry that the handlers take apart by hand, with the fields read anywhere in cmd/compile's handlers", auxOrder, auxFn, func(q string) []string {
 		return sortedKeys(auxReads[q])
 	})
+	sb.WriteString("/-- what every special handler writes: type, function, node/data constructors and literal types named in the\nformat strings of its own body (source order), node/data values it builds at generation time (with its helpers) -/\ndef handlerOuts : List Model.EmitFuse.HandlerOut := [\n")
+	for i, q := range specialOrder {
+		sep := ","
+		if i == len(specialOrder)-1 {
+			sep = ""
+		}
+		heads, builds := an.handlerOut(special[q])
+		fmt.Fprintf(&sb, "  ⟨%s, %s, %s, %s⟩%s\n", ex.LeanString(q), ex.LeanString(special[q]), leanList(heads), leanList(builds), sep)
+	}
+	sb.WriteString("]\n\n")
 	fmt.Fprintf(&sb, "/-- `emitStructLiteral` writes `Node: node.NewNode(from)` only for an embedded `*Node` tagged `pp:\"-\"` -/\ndef nodeNeedsTag : Bool := %v\n\n", needsTag)
 
 	// runner call sequences
